@@ -113,6 +113,7 @@ inline TableSpec spec_from_json(const JV& j) {
 	return s;
 }
 
+extern "C" int __lsan_do_recoverable_leak_check();
 // run f in a forked child; classify how it ended.  returns "ok", "exit<n>", "asan", "ubsan", "assert", "signal<n>", "hang"
 template <class F>
 std::string in_child(F f, int timeout_s = 20, std::string* out = nullptr) {
@@ -150,7 +151,7 @@ std::string in_child(F f, int timeout_s = 20, std::string* out = nullptr) {
 	else if (err.find("LeakSanitizer") != std::string::npos) verdict = "leak";
 	else if (WIFSIGNALED(st)) verdict = "signal" + std::to_string(WTERMSIG(st));
 	else verdict = "exit" + std::to_string(WEXITSTATUS(st));
-	if (verdict != "ok" && out) *out += "\n[stderr] " + err.substr(0, 1500);
+	if (out && (verdict != "ok" || res.find("LEAK") == 0)) *out += "\n[stderr] " + (err.size() > 6000 ? err.substr(err.size() - 6000) : err);
 	return verdict;
 }
 
